@@ -96,6 +96,7 @@ def run(repo, rep, tier):
     _census(repo, rep)
     _dynamic_python(repo, rep)
     _stamp(repo, rep)
+    L.state_rule(repo, rep)
 
 
 # ---------------------------------------------------------------------------
